@@ -82,6 +82,14 @@ def local_defs(fnode):
         elif isinstance(n, (ast.FunctionDef, ast.AsyncFunctionDef)) \
                 and n is not fnode:
             add(n.name, n, None, 'def')
+        elif isinstance(n, ast.Expr) and isinstance(n.value, ast.Call) and \
+                isinstance(n.value.func, ast.Attribute) and isinstance(
+                    n.value.func.value, ast.Name) and n.value.func.attr in (
+                    'append', 'extend', 'insert', 'update', 'add') and \
+                n.value.args:
+            # in-place growth of a local container keeps its provenance and
+            # adds the argument's
+            add(n.value.func.value.id, n, n.value.args[-1], 'mutate')
     return defs
 
 
@@ -126,6 +134,8 @@ class Reaching:
                 kinds = {d.kind for d in ds}
                 if kinds <= {'for'} and not isinstance(
                         ds[0].stmt, ast.comprehension):
+                    out.setdefault(name, set()).update(ds)
+                elif kinds <= {'mutate'}:
                     out.setdefault(name, set()).update(ds)
                 elif isinstance(ds[0].stmt, ast.comprehension):
                     pass    # comprehension targets are not function locals
